@@ -50,6 +50,10 @@ z3.ForAll = _safe_quant(_z3_forall)
 z3.Exists = _safe_quant(_z3_exists)
 
 
+class DeadPath(Exception):
+    """raised after an obligation `False` was emitted for the current path (it must be infeasible)"""
+
+
 class Stale(Exception):
     """The contract cannot be applied to the current source (anchor / name / loop missing)."""
 
@@ -499,6 +503,18 @@ class Exec:
             return SV(FUNC, py=("ghost", n))
         if n in self.c.consts:
             return self.const_value(st, n)
+        if n in getattr(self, "block_assigned", ()) and st.spec and n in self.c.locals:
+            # a specification may mention a declared local that is unbound on this path: an arbitrary value of its
+            # type (whatever the clause says about it has to hold for every value, or be guarded)
+            v = self.fresh("unbound_" + n, parse_type(self.c.locals[n]))
+            st.env[n] = v
+            return v
+        if n in getattr(self, "block_assigned", ()) and not st.spec and not st.binders:
+            # a local that is assigned somewhere in the verified code but not on this path: reading it raises
+            # UnboundLocalError / NameError, so the path has to be infeasible
+            self.oblige(st, "safety.bound", z3.BoolVal(False), "safety", node,
+                        "local variable '%s' is bound wherever it is read" % n)
+            raise DeadPath(n)
         return SV(FUNC, py=("name", n))
 
     def const_value(self, st, n):
@@ -529,6 +545,18 @@ class Exec:
         if base.t is FUNC and base.py[0] == "name":
             return SV(FUNC, py=("name", base.py[1] + "." + node.attr))
         base = self.unwrap(st, base, node, "object")
+        if isinstance(base.t, TAbs):
+            ft = self.c.fields.get(base.t.name + "." + node.attr)
+            if ft is not None:
+                t = parse_type(ft)
+                f = self.uf("fld_%s_%s" % (base.t.name, node.attr), base.t.sort(), t.sort())
+                r = SV(t, f(base.z))
+                key = ("fld-wf", r.z.get_id())
+                if key not in st.seen:
+                    st.seen.add(key)
+                    for w in self.wf(r):
+                        self.assume(st, w)
+                return r
         r = self.lib.attribute(self, st, base, node.attr, node)
         if r is not None:
             return r
@@ -1062,6 +1090,8 @@ class Exec:
             return self.abstract_stmt(st, s, "statement kind %s" % type(s).__name__)
         try:
             return m(st, s)
+        except DeadPath:
+            return []
         except Unsupported as e:
             return self.abstract_stmt(st, s, str(e))
 
@@ -1813,6 +1843,7 @@ class Exec:
         if c.skip_body:
             return
         body = self.select_block()
+        self.block_assigned = set(assigned_names(body)) - set(c.params) - set(c.free)
         self.number_loops(body)
         missing = [o for o in c.loops if o >= len(self.loop_ord)]
         if missing:
